@@ -31,10 +31,23 @@
 extern long long verif_insn_count;
 extern long verif_max_csp;
 extern long verif_max_sp;
+/* `verif hook: per-opcode execution histogram` (weak: a tree without that hook still links, no `#ops` line then) */
+extern unsigned long verif_op_hist[256] __attribute__ ((weak));
 #else
 static long long verif_insn_count;
 static long verif_max_csp, verif_max_sp;
 #endif
+
+#ifndef NEOLITH_VERIF
+static unsigned long *verif_op_hist = 0;
+#endif
+/* the backward-branch opcodes found in eval_instruction by props/c04.py (gen_loop), passed as
+ * -DC04_BACKOPS={"F_BBRANCH",F_BBRANCH},... : a name the source no longer defines breaks the harness build (the tie) */
+#include "efuns_opcode.h"
+#ifndef C04_BACKOPS
+#define C04_BACKOPS
+#endif
+static const struct { const char *name; int op; } c04_backops[] = { C04_BACKOPS {0, 0} };
 
 static int c04_stack = 0;
 static const char *c04_conf = 0, *c04_scratch = "/tmp";
@@ -58,6 +71,8 @@ static int c04_ev (int n, char **tok, int quiet)
   shared = make_shared_string (tok[2]);
   res[0] = 0;
   verif_insn_count = 0;
+  if (verif_op_hist)
+    memset (verif_op_hist, 0, 256 * sizeof (unsigned long));
   verif_max_csp = csp - control_stack;
   verif_max_sp = sp - start_of_stack;
   if (!save_context (&econ))
@@ -100,6 +115,17 @@ static int c04_ev (int n, char **tok, int quiet)
     vh_out ("r nofn");
   else
     vh_out ("r ret %s", res);
+  if (verif_op_hist)
+    {
+      /* `#` lines are not compared and not judged: read by the plugin (which loop opcodes the evaluation executed) */
+      char ops[1024];
+      int len = 0;
+      ops[0] = 0;
+      for (int i = 0; c04_backops[i].name && len < 900; i++)
+        if (verif_op_hist[c04_backops[i].op & 255])
+          len += snprintf (ops + len, sizeof ops - len, " %s=%lu", c04_backops[i].name, verif_op_hist[c04_backops[i].op & 255]);
+      vh_out ("#ops%s", ops);
+    }
   vh_out ("obs ticks=%lld maxcsp=%ld maxsp=%ld csp=%ld sp=%ld cost=%d depth=%d stack=%d", verif_insn_count,
           verif_max_csp, verif_max_sp, (long) (csp - control_stack), (long) (sp - start_of_stack),
           CONFIG_INT (__MAX_EVAL_COST__), CONFIG_INT (__MAX_CALL_DEPTH__), c04_stack);
